@@ -731,9 +731,9 @@ impl Blockchain {
     }
 
     fn remove_block_transactions(&self, block_hash: &SaitoHash, mempool: &mut Mempool) {
-        mempool
-            .transactions
-            .retain(|_, tx| tx.validate_against_utxoset(&self.utxoset));
+        mempool.transactions.retain(|_, tx| {
+            tx.validate_against_utxoset(&self.utxoset) && !tx.spends_expired_input(self)
+        });
         let block = self.get_block(block_hash).unwrap();
         // we call delete_tx after removing invalidated txs, to make sure routing work is calculated after removing all the txs
         mempool.delete_transactions(&block.transactions);
